@@ -60,7 +60,8 @@ func (l *Lowerer) call(ce *ast.CallExpr) ([]*Term, []types.Type) {
 			if l.spec {
 				s, st := l.tr(ce.Args[0])
 				if id.Name == "arr" {
-					return []*Term{l.p.reg.sArr(s)}, []types.Type{st}
+					et := st.Underlying().(*types.Slice).Elem()
+					return []*Term{l.p.reg.sArr(s)}, []types.Type{types.NewArray(et, 1<<62)}
 				}
 				return []*Term{l.p.reg.sOff(s)}, []types.Type{types.Typ[types.Int]}
 			}
@@ -175,6 +176,29 @@ func (l *Lowerer) call(ce *ast.CallExpr) ([]*Term, []types.Type) {
 				callee, _ = l.info().ObjectOf(f.Sel).(*types.Func)
 			}
 		} else {
+			if l.spec {
+				// spec-only pure method defined in the contracts (`define`)
+				bt := l.typeOfExpr(f.X)
+				if n := namedOf(bt); n != "" {
+					obj, _, _ := types.LookupFieldOrMethod(bt, true, l.fr.fi.Pkg.Types, f.Sel.Name)
+					if _, isFunc := obj.(*types.Func); !isFunc {
+						if ct := l.p.contracts[l.p.prefixOfType(bt)+n+"."+f.Sel.Name]; ct != nil && ct.PureDef != nil {
+							r, rt := l.tr(f.X)
+							env := map[string]envEntry{ct.RecvName: {r, rt}}
+							for i, pn := range ct.Params {
+								if i < len(ce.Args) {
+									a, at := l.tr(ce.Args[i])
+									env[pn] = envEntry{a, at}
+								}
+							}
+							l.pushEnv(env)
+							t, tt := l.tr(ct.PureDef.Expr)
+							l.popEnv()
+							return []*Term{t}, []types.Type{tt}
+						}
+					}
+				}
+			}
 			recv, recvTyp, callee = l.methodRecv(f)
 		}
 	}
@@ -289,8 +313,23 @@ func (l *Lowerer) methodRecv(f *ast.SelectorExpr) (*Term, types.Type, *types.Fun
 			if basePl != nil && basePl.kind == pHeap && basePl.path == "" {
 				return basePl.ref, types.NewPointer(curTyp), m
 			}
-			// address of a value struct (local variable or embedded field): identify the object by a
-			// pseudo reference whose fields mirror the value. Not supported in general.
+			// address of a value struct stored inside another object (or in a slice/map element):
+			// copy-in / copy-out through a temporary object. Sound as long as the callee does not
+			// retain the pointer (true of the decode/encode helpers this is used for).
+			if basePl != nil {
+				_, stt := structOf(curTyp)
+				owner := l.p.structName(stt)
+				r := l.alloc()
+				tmpPl := &place{kind: pHeap, ref: r, owner: owner, path: "", typ: stt}
+				l.emit(&Stmt{Kind: SAllocZero, Struct: owner, Ref: r})
+				l.store(tmpPl, l.load(basePl))
+				src := basePl
+				l.afterCall = append(l.afterCall, func() {
+					l.store(src, l.load(tmpPl))
+				})
+				l.note("A-addr: pointer-receiver call on a nested value struct is modelled by copy-in/copy-out")
+				return r, types.NewPointer(curTyp), m
+			}
 			return nil, curTyp, m
 		}
 		// pointer receiver on non-struct named value (e.g. *KError) – rare
@@ -756,6 +795,16 @@ func (l *Lowerer) evalArgs(ce *ast.CallExpr, sig *types.Signature) ([]*Term, []t
 }
 
 func (l *Lowerer) callFunc(callee *types.Func, recv *Term, recvTyp types.Type, ce *ast.CallExpr) ([]*Term, []types.Type) {
+	after := l.afterCall
+	l.afterCall = nil
+	ts, tys := l.callFunc1(callee, recv, recvTyp, ce)
+	for _, f := range after {
+		f()
+	}
+	return ts, tys
+}
+
+func (l *Lowerer) callFunc1(callee *types.Func, recv *Term, recvTyp types.Type, ce *ast.CallExpr) ([]*Term, []types.Type) {
 	sig := callee.Type().(*types.Signature)
 	fi := l.p.funcByObj[callee]
 	if fi == nil && callee.Origin() != callee {
@@ -921,7 +970,27 @@ func (l *Lowerer) pureCall(fi *FuncInfo, recv *Term, recvTyp types.Type, args []
 			panic("abstract pure method must have one result: " + fi.Key)
 		}
 		hv := l.heapVar("F."+fi.IfaceName+".$"+fi.Obj.Name(), l.p.sortOf(resTypes[0]))
-		return []*Term{Select(hv, recv)}
+		res := Select(hv, recv)
+		// coupling: for a receiver whose dynamic type is a repository implementation with a pure
+		// definition, the abstract state is that definition
+		if sigRecv := fi.Obj.Type().(*types.Signature).Recv(); sigRecv != nil {
+			impls := l.p.implementers(sigRecv.Type())
+			if len(impls) <= 2 {
+				for _, it := range impls {
+					n := namedOf(it)
+					cfi := l.p.funcs[l.p.keyPrefix(fi.Pkg)+n+"."+fi.Obj.Name()]
+					if cfi == nil || cfi.Body == nil {
+						continue
+					}
+					if cct := l.p.contracts[cfi.Key]; cct == nil || !cct.Pure {
+						continue
+					}
+					conc := l.pureCall(cfi, recv, it, args, atys, node)
+					res = Ite(And(Not(Eq(recv, IntLit(0))), Eq(App("dyntype", "Int", recv), l.p.typeID(it))), conc[0], res)
+				}
+			}
+		}
+		return []*Term{res}
 	}
 	env := map[string]envEntry{}
 	l.bindParams(env, ct, fi, recv, recvTyp, args, atys)
@@ -964,15 +1033,14 @@ func (l *Lowerer) bindRealNames(env map[string]envEntry, fi *FuncInfo, recv *Ter
 
 func (l *Lowerer) bindParams(env map[string]envEntry, ct *Contract, fi *FuncInfo, recv *Term, recvTyp types.Type, args []*Term, atys []types.Type) {
 	l.bindRealNames(env, fi, recv, recvTyp, args, atys)
-	if ct == nil {
-		return
-	}
-	if ct.RecvName != "" && recv != nil {
-		env[ct.RecvName] = envEntry{recv, recvTyp}
-	}
-	for i, n := range ct.Params {
-		if i < len(args) && n != "_" && n != "" {
-			env[n] = envEntry{args[i], atys[i]}
+	for _, c := range l.p.contractChain(ct) {
+		if c.RecvName != "" && recv != nil {
+			env[c.RecvName] = envEntry{recv, recvTyp}
+		}
+		for i, n := range c.Params {
+			if i < len(args) && n != "_" && n != "" {
+				env[n] = envEntry{args[i], atys[i]}
+			}
 		}
 	}
 }
@@ -1061,9 +1129,11 @@ func (l *Lowerer) callContract(ct *Contract, fi *FuncInfo, recv *Term, recvTyp t
 		l.wf(r, resTypes[i])
 	}
 	// ensures
-	for i, n := range ct.Returns {
-		if i < len(results) {
-			env[n] = envEntry{results[i], resTypes[i]}
+	for _, c := range l.p.contractChain(ct) {
+		for i, n := range c.Returns {
+			if i < len(results) {
+				env[n] = envEntry{results[i], resTypes[i]}
+			}
 		}
 	}
 	for i := 0; i < fi.Sig.Results().Len(); i++ {
@@ -1135,6 +1205,15 @@ func (p *Prog) allClauses(ct *Contract) (reqs, enss, effs []*Clause) {
 // havocModifies applies the frame of a contract at a call site (spec mode, env bound).
 func (l *Lowerer) havocModifies(ct *Contract, fi *FuncInfo, node ast.Node) {
 	mods, has := l.p.allModifies(ct)
+	if ct.Auto {
+		ms := map[string]bool{}
+		for k := range l.p.modset(fi) {
+			ms[k] = true
+		}
+		ms["F.packetDecoder.*"] = true
+		l.emit(&Stmt{Kind: SHavocSet, Set: ms, Note: "call " + fi.Key + " (auto contract: syntactic mod-set + decoder state)"})
+		return
+	}
 	if !has {
 		if fi.Body != nil {
 			ms := l.p.modset(fi)
@@ -1156,8 +1235,8 @@ func (p *Prog) allModifies(ct *Contract) ([]string, bool) {
 	for c := ct; c != nil && !seen[c]; {
 		seen[c] = true
 		if c.HasModifies {
-			has = true
-			out = append(out, c.Modifies...)
+			// the most specific modifies clause wins (an implementation states its own, finer frame)
+			return c.Modifies, true
 		}
 		if c.Refines == "" {
 			break
@@ -1268,7 +1347,7 @@ func (l *Lowerer) parseModItem(m string) []modItem {
 func (l *Lowerer) flattenPaths(owner, path string, t types.Type, f func(string)) {
 	if st, _ := structOf(t); st != nil && !isPointer(t) && !l.p.isOpaqueStruct(t) {
 		for i := 0; i < st.NumFields(); i++ {
-			l.flattenPaths(owner, path+"."+st.Field(i).Name(), st.Field(i).Type(), f)
+			l.flattenPaths(owner, joinPath(path, st.Field(i).Name()), st.Field(i).Type(), f)
 		}
 		return
 	}
